@@ -435,6 +435,25 @@ impl From<String> for SourceInfo {
     }
 }
 
+/// Normalizes a label for case-insensitive lookup.
+/// 
+/// A character is replaced by its uppercase form only if that form is a single character
+/// of the same UTF-8 length, so that the key occupies exactly as many bytes as the label
+/// does in the source: the source span of a label is computed from the length of its key
+/// (see [`SymbolData::span`]), and a few characters change length when uppercased
+/// (e.g. `ß` -> `SS`, `ﬁ` -> `FI`, `ſ` -> `S`).
+fn label_key(name: &str) -> String {
+    name.chars()
+        .map(|c| {
+            let mut upper = c.to_uppercase();
+            match (upper.next(), upper.next()) {
+                (Some(u), None) if u.len_utf8() == c.len_utf8() => u,
+                _ => c
+            }
+        })
+        .collect()
+}
+
 #[derive(PartialEq, Eq, Clone, Copy, Default, Debug)]
 struct SymbolData {
     addr: u16,
@@ -601,7 +620,7 @@ impl SymbolTable {
             addr: u16,
             external: bool
         ) -> Result<(), AsmErr> {
-            match labels.entry(label.name.to_uppercase()) {
+            match labels.entry(label_key(&label.name)) {
                 // Two labels with different addresses. Conflict.
                 Entry::Occupied(e) if e.get().addr != addr => {
                     let span1 = e.get().span(e.key());
@@ -664,7 +683,7 @@ impl SymbolTable {
                 }
                 StmtKind::Directive(Directive::Fill(PCOffset::Label(label))) => {
                     let lc = cursor.as_ref().map(|cur| cur.lc);
-                    label_fills.push((lc, label.name.to_uppercase(), stmt.span.clone()));
+                    label_fills.push((lc, label_key(&label.name), stmt.span.clone()));
                 },
                 _ => {}
             };
@@ -745,7 +764,7 @@ impl SymbolTable {
     /// assert_eq!(sym.lookup_label("LOOP_DE_LOOP"), None);
     /// ```
     pub fn lookup_label(&self, label: &str) -> Option<u16> {
-        self.label_map.get(&label.to_uppercase()).map(|sym_data| sym_data.addr)
+        self.label_map.get(&label_key(label)).map(|sym_data| sym_data.addr)
     }
     
     /// Gets the label at a given memory address (if it exists).
@@ -804,7 +823,7 @@ impl SymbolTable {
     /// assert_eq!(sym.get_label_source("LOOP_DE_LOOP"), None);
     /// ```
     pub fn get_label_source(&self, label: &str) -> Option<Range<usize>> {
-        self.label_map.get(&label.to_uppercase())
+        self.label_map.get(&label_key(label))
             .map(|data| data.span(label))
     }
 
@@ -954,7 +973,7 @@ fn replace_pc_offset<const N: u32>(off: PCOffset<i16, N>, pc: u16, sym: &SymbolT
         PCOffset::Offset(off) => Ok(off),
         PCOffset::Label(label) => {
             // TODO: use sym.lookup_label
-            match sym.label_map.get(&label.name.to_uppercase()) {
+            match sym.label_map.get(&label_key(&label.name)) {
                 Some(SymbolData { external: true, .. }) => Err(AsmErr::new(AsmErrKind::OffsetExternal, label.span())),
                 Some(SymbolData { addr, .. }) => {
                     IOffset::new(addr.wrapping_sub(pc) as i16)
